@@ -199,4 +199,45 @@ theorem interpCompileStr_eq (uw : Char → Bool) (s : List Char) :
     simp only [compileExpr, create_total, liftRes]
     exact compileStr_raw_ok (fun e => createD e .nil) (toExpr c true)
 
+/-! ## expression.join: `functools.reduce(lambda e1, e2: e1.then(e2), expressions)` -/
+
+theorem collapse_bind {α β : Type} (r : R α) (k : α → R β) :
+    (r.bind k).collapse = match r.collapse with
+      | .ok a => (k a).collapse
+      | .error e => .error e := by
+  induction r with
+  | ok a => rfl
+  | error e => rfl
+  | ite b t e iht ihe => cases b <;> simp [R.bind, R.collapse, iht, ihe]
+
+/-- the evaluator under which the lambda of `join` runs -/
+abbrev joinEv : Env → DExpr → RV := eval dslProg ⟨noHook, noLark⟩ (FUEL - 1)
+
+/-- `join(a, …)` is the reduction with the lambda read from the source, started at `a`. -/
+theorem join_unfold (a : DVal) (rest : List DVal) :
+    interpJoinL dslProg (a :: rest) =
+      (((reduceR joinEv (joinLam dslProg).1 (joinLam dslProg).2.1 (joinLam dslProg).2.2 a rest).bind
+          (fun v => .ok (some v, [("expressions", .list (a :: rest))]))).bind retVal).collapse := by
+  kernel_rfl
+
+theorem join_none : interpJoinL dslProg [] = .error (.exc "TypeError") := by kernel_rfl
+
+/-- one step of the reduction: `e1.then(e2)` -/
+theorem join_step (e v : Expr) (rest : List DVal) :
+    reduceR joinEv (joinLam dslProg).1 (joinLam dslProg).2.1 (joinLam dslProg).2.2 (.expr e) (.expr v :: rest) =
+      reduceR joinEv (joinLam dslProg).1 (joinLam dslProg).2.1 (joinLam dslProg).2.2 (.expr (.series e v)) rest := by
+  cases e <;> kernel_rfl
+
+theorem join_reduce (es : List Expr) : ∀ e,
+    reduceR joinEv (joinLam dslProg).1 (joinLam dslProg).2.1 (joinLam dslProg).2.2 (.expr e) (es.map .expr) =
+      .ok (.expr (es.foldl .series e)) := by
+  induction es with
+  | nil => intro e; rfl
+  | cons v vs ih => intro e; rw [List.map_cons, join_step, ih]; rfl
+
+theorem interpJoin_eq (e : Expr) (es : List Expr) :
+    interpJoin dslProg e es = .ok (.expr (es.foldl .series e)) := by
+  rw [interpJoin, join_unfold, join_reduce]
+  rfl
+
 end TraitsVerif.Model.DslPy
